@@ -23,7 +23,7 @@ def gen(seed, tier):
         t = H.gen_tree(rng, d, n, HI.POOL, dflt)
         ln = rng.choice([4, 8, 12]) if tier == "quick" else rng.choice([8, 30, 100])
         yield {"prop": PROP, "d": d, "dflt": dflt, "t": t, "n": n, "len": ln,
-               "hseed": rng.randrange(1 << 30), "fdflt": rng.random() < 0.15,
+               "hseed": rng.randrange(1 << 30), "fdflt": rng.random() < 0.15, "ndflt": rng.random() < 0.08,
                "cfg": rng.choice([{}, {}, {}, {"shape": [n + 3] * d}, {"fib0": True}]), "kind": "owned" if d >= 2 or rng.random() < 0.5 else "free",
                "mode": "structural" if (d >= 2 and i % 4 == 0) else "general"}
     # a few single-operation sweeps from small states: every op kind from every 1-D fiber over 3 coordinates
